@@ -48,6 +48,8 @@ PROGS = [
     "t = sum(x for x in xs)\nu = f((y for y in ys), z)\nv = any(\n    w for w in ws\n)",
     # one name in every expression context (the ctx parameter decides whether a context instance in the pattern is compared)
     "x = x + 1\ndel x, y\nfor x in x: pass\nz = [x for x in w if x]\nwith a as x: x",
+    # parameter lists of every size from zero to two
+    "def z(): pass\ndef one(a): return a\ndef dflt(b=1): return b\ndef star(*c): pass\nl = lambda k: k\ndef two(d, e=2): pass",
 ]
 for _p in PROGS:
     ast.parse(_p)
@@ -129,6 +131,11 @@ def rules(M):
                       lambda n: ast.BinOp(left=n, op=ast.Add(), right=T(ast.Constant(value=0)), _tmpl=True), '(__FST_ +\n 0)', False)
     R['def->wrapper'] = (M.MFunctionDef(args=M.M(a=...)), lambda n: isinstance(n, ast.FunctionDef), wrapper,
                          'def wrapper(__FST_a):\n    return impl(__FSS_a)', False)
+    # whole-match slot where the slot is an element made of several nodes (a parameter with its default): structure unchanged
+    R['args-identity'] = (M.Marguments(), lambda n: isinstance(n, ast.arguments), lambda n: n, ('FST', '__FST_', 'arguments'), True)
+    # a slot inside a string literal of the template receives the matched source as text (documented): the result is a Constant
+    R['name->str'] = (M.MName(ctx=ast.Load), lambda n: isinstance(n, ast.Name) and isinstance(n.ctx, ast.Load),
+                      lambda n: ast.Constant(value=f'got {n.id} here', _tmpl=True), '"got __FST_ here"', False)
     # a plain-AST pattern carrying an expression-context INSTANCE: compared only when sub(..., ctx=True)
     R['name-x-ctx'] = (ast.Name(id='x', ctx=ast.Load()),
                        lambda n: isinstance(n, ast.Name) and n.id == 'x' and (not CTX[0] or isinstance(n.ctx, ast.Load)),
@@ -257,6 +264,9 @@ def run_case(fst, M, pi, rname, st, res):
         res.outcomes['reference-result-not-valid-python'] += 1
         return
     root = fst.FST(src, 'exec')
+    if isinstance(tmpl, tuple):  # template given as a tree of a particular kind
+        mk = tmpl
+        tmpl = fst.FST(mk[1], mk[2])
     try:
         with deadline(20):
             out, unique, total = root.subn(pat, tmpl, st['nested'], count=st['count'], on=st['on'], loop=st['loop'], back=st['back'], **kw)
@@ -309,7 +319,9 @@ def run_case(fst, M, pi, rname, st, res):
     # sub() is subn() without the counts: same arguments, same tree
     root2 = fst.FST(src, 'exec')
     try:
-        pat2 = rules(M)[rname][0]
+        pat2, _, _, tmpl2, _ = rules(M)[rname]
+        if isinstance(tmpl2, tuple):
+            tmpl = fst.FST(tmpl2[1], tmpl2[2])
         out2 = root2.sub(pat2, tmpl, st['nested'], count=st['count'], on=st['on'], loop=st['loop'], back=st['back'], **kw)
         if out2 is not root2 or root2.src != root.src or O.dump_pos(root2.a) != O.dump_pos(root.a):
             res.fail(cid, 'sub-differs-from-subn', f'src={src!r}\nsubn={root.src!r}\nsub ={root2.src!r}', params, rep)
@@ -336,7 +348,7 @@ def run_case(fst, M, pi, rname, st, res):
 
 RULE_NAMES = ['name->log', 'binop->f', 'binop-swap', 'call-unwrap', 'expr-identity', 'list-slice', 'dict-mid', 'if-swap', 'stmt-identity',
               'def->wrapper',
-              'call-args-tail', 'call-_args-tail', 'call-_args-init', 'genexp->list', 'genexp->or', 'name->par', 'name-x-ctx']
+              'call-args-tail', 'call-_args-tail', 'call-_args-init', 'genexp->list', 'genexp->or', 'name->par', 'name-x-ctx', 'args-identity', 'name->str']
 
 
 def shards(tier):
